@@ -73,6 +73,9 @@ func main() {
 		}
 		c12execNegative(&c, out)
 	}
+	if c.Prop == "C15" && c.Sub == "exec" {
+		c15exec(&c, out)
+	}
 	f := subs[c.Prop+"/"+c.Sub]
 	if f == nil {
 		var ks []string
